@@ -372,9 +372,9 @@ theorem StageOk.lift {R c B : Nat} {f : IS → Out LoopRes} (h : StageOk R f c B
 header-entity reader that is a stage with constant `Kh`: it ends with fuel `|bytes| + 2`, never un-reads, and makes at most
 `(Kh + 54)·(|bytes| + 1) + iters + Kh + 36` steps over all nesting levels -/
 theorem appendFile1_ok (o : Oracle) (known : List Byte → Bool) (rdh : List Byte → IS → Out LoopRes) (Kh : Nat) (hKh : 1 ≤ Kh)
-    (hk : known [] = false) (guard : Option Nat) (cm goOn : Bool) (iters n maxErr : Nat) (s : IS)
+    (hk : known [] = false) (stay : Bool) (guard : Option Nat) (cm goOn : Bool) (iters n maxErr : Nat) (s : IS)
     (hrd : ∀ kw, StageOk iters (rdh kw) Kh (s.rest.length + 1)) :
-    ∃ r, appendFile1 o known rdh guard cm goOn iters n .notGood maxErr (s.rest.length + 2) s = .ok r ∧ r.s.m ≤ s.m ∧
+    ∃ r, appendFile1 o known rdh stay guard cm goOn iters n .notGood maxErr (s.rest.length + 2) s = .ok r ∧ r.s.m ≤ s.m ∧
       r.steps ≤ (Kh + 54) * (s.rest.length + 1) + iters + Kh + 36 := by
   have hm : s.m ≤ s.rest.length + 1 := by unfold IS.m; split <;> omega
   generalize hF : s.rest.length + 2 = F at *
@@ -425,7 +425,7 @@ theorem appendFile1_ok (o : Oracle) (known : List Byte → Bool) (rdh : List Byt
         hdrPot_lift (Nat.zero_le _) b3 (by rw [← pot_eq_hdrPot, ← pot_eq_hdrPot]; omega)
       split
       · exact ⟨_, rfl, by simp only []; omega, hfin _ r3.s (by omega) (by simp only []; omega)⟩
-      · obtain ⟨r4, a4, b4, c4, _, _⟩ := readData1_okF o guard cm ws iters maxErr r3.s F (by omega)
+      · obtain ⟨r4, a4, b4, c4, _, _⟩ := readData1_okF o stay guard cm ws iters maxErr r3.s F (by omega)
         rw [a4]
         simp only []
         rw [dataPot_eq_hdrPot, dataPot_eq_hdrPot] at c4
